@@ -86,6 +86,17 @@ func C15(c *Ctx) {
 	per := 16
 	var gs []*gast.Grammar
 	fixed := c15Fixed()
+	// every Unicode class name the front-end accepts (enumerated through the hook), alone, inverted
+	// and case-insensitive: the table's entry for each of the 128 runes is decided for all of them
+	if hook, err := c.W.Hooked(); err == nil {
+		names := c03UClasses(c, hook)
+		for _, n := range names {
+			fixed = append(fixed, &gast.ClassSpec{UClasses: []string{n}}, &gast.ClassSpec{UClasses: []string{n}, Inverted: true}, &gast.ClassSpec{UClasses: []string{n}, IgnoreCase: true})
+		}
+		c.Cov("unicode_class_names_swept", len(names))
+	} else {
+		c.Broken(err.Error())
+	}
 	for len(gs)*per < nClasses+len(fixed) {
 		g := &gast.Grammar{}
 		for k := 0; k < per; k++ {
